@@ -51,6 +51,15 @@ func c02Faults(counts map[string]int, regs, reports int, tier string) []ATEpisod
 				// has reported phase-one-done before)
 				rules = append(rules, simtc.Rule{Code: simtc.TBranchReport, Nth: k, Action: simtc.ActFail, Status: simtc.BSPhaseOneFailed})
 			}
+			if nfail <= 2 {
+				// the same with reports that get no answer at all (each attempt ends
+				// with the RPC timeout; the next one is due all the same)
+				var silent []simtc.Rule
+				for k := 1; k <= nfail; k++ {
+					silent = append(silent, simtc.Rule{Code: simtc.TBranchReport, Nth: k, Action: simtc.ActSilent, Status: simtc.BSPhaseOneFailed})
+				}
+				add(fmt.Sprintf("commit-error+report-unanswered-x%d", nfail), []DBFault{{Class: "commit", Nth: 1, Kind: "error", Num: 1213}}, silent)
+			}
 			// combined with a failing COMMIT so that a PhaseOne_Failed report is due
 			add(fmt.Sprintf("commit-error+report-fails-x%d", nfail), []DBFault{{Class: "commit", Nth: 1, Kind: "error", Num: 1213}}, rules)
 			// the same with the undo-log insert failing: here the local transaction
